@@ -20,7 +20,7 @@ from .ctx import Ctx
 from .model import AnalysisError, FunctionInfo
 from .report import RuleResult
 from .terms import (Attr, BoundMethod, Call, ClassRef, Const, EnumMember, Evaluator, Ext, FuncRef, Ite, Loop, New, Op,
-                    Opaque, Outcome, Sub, Sym, Term, TupleT, alternatives, default_inline, expand_outcomes, unglobal, guards_repr, norm_guards, walk)
+                    Opaque, Outcome, Sub, Sym, Term, TupleT, alternatives, default_inline, expand_outcomes, reduce_guards, unglobal, guards_repr, norm_guards, walk)
 from .util import call_name, call_recv, method_calls
 
 ALIAS = {'a': 'operand1', 'b': 'operand2', 'p': 'condition', 'phi': 'condition', 'd': 'domain', 'x': 'variable', 'op': 'operator', 'operand': 'operand1'}
@@ -829,23 +829,27 @@ def R4(ctx: Ctx) -> RuleResult:
         r.fail('_split_and_expr:start', f'work list does not start with the input: {lp.iter!r}', fi.where)
     seen = {'true': False, 'false': False, 'and': False, 'emit': False}
     for rg, exc in lp.raises:
-        gs = norm_guards(rg)
+        gs = reduce_guards(rg)
         if any(_lit_test(g) == 'false' and pol for g, pol in gs) and 'ValueError' in repr(exc):
             seen['false'] = True
         else:
             r.fail('_split_and_expr:raise', f'raises {str(exc)[:40]} under [{guards_repr(gs)}]', fi.where)
     for pg, flow, binds, effs in lp.paths:
-        gs = norm_guards(pg)
+        gs = reduce_guards(pg)
         t = next((pol for g, pol in gs if _lit_test(g) == 'true'), None)
         if t is True:
-            if [e for e in effs if isinstance(e, Call) and call_name(e) in ('append', 'extend', 'insert', 'add')] or flow not in ('continue', 'end'):
+            if [e for e in effs if isinstance(e, Call) and call_name(e) in ('append', 'extend', 'insert', 'add') and not (e.args and isinstance(e.args[0], TupleT) and not e.args[0].items)] or flow not in ('continue', 'end'):
                 r.fail('_split_and_expr:true', 'a literal true conjunct has effects', fi.where)
             seen['true'] = True
             continue
         expr = next((v for _, v in binds if _fname(v) == '_and_presplit_transform'), None)
+        if expr is None:
+            # the transformed conjunct may live inside a record / tuple bound on this path, or only in the guards
+            expr = next((x for _, v in binds for x in walk(v) if _fname(x) == '_and_presplit_transform'), None) or \
+                next((x for g, _ in pg for x in walk(g) if _fname(x) == '_and_presplit_transform'), None)
         transformed = expr is not None
         sh = Shapes()
-        for g, pol in pg:
+        for g, pol in gs:
             if _lit_test(g) is None:
                 sh.read(g, pol)
         is_and = sh.kind.get(canon(expr)) == 'and' if expr is not None else False
